@@ -201,7 +201,7 @@ func verifyFunc(l *Loaded, spec *FuncSpec, prop string) (res *FuncResult) {
 	cov := &Obligation{Name: x.oblName("cover/requires"), Kind: "cover", Func: fn.String(), Hyps: append([]T(nil), st.PC...), Goal: TFalse, Expect: "sat"}
 	x.obls = append(x.obls, cov)
 	nReturned := 0
-	x.execBlock(st, fr, fn.Blocks[0], nil, func(s2 *State, result Val) {
+	x.tryPath(func() { x.execBlock(st, fr, fn.Blocks[0], nil, func(s2 *State, result Val) {
 		fr2 := s2.Frames[0]
 		c := x.envFor(s2, x.entry, fr2, result)
 		c.frames = nil
@@ -240,7 +240,7 @@ func verifyFunc(l *Loaded, spec *FuncSpec, prop string) (res *FuncResult) {
 			nReturned++
 			x.obls = append(x.obls, &Obligation{Name: fmt.Sprintf("%s~%d", x.oblName("cover/return"), nReturned), Kind: "cover-any", Func: fn.String(), Hyps: append([]T(nil), s2.PC...), Goal: TFalse, Expect: "sat"})
 		}
-	})
+	}) })
 	return
 }
 
